@@ -40,12 +40,16 @@ def paginate_or_redirect_stdout(outputstream):
     `less` if PAGER environment variable is not defined.
     """
 
-    if outputstream is None:
+    diverted = outputstream is None
+    if diverted:
         # the standard output is closed: as argparse does for `--help`
         outputstream = sys.stderr
 
     with redirect_stdout(outputstream):
-        use_pager = sys.stdout is not None and sys.stdout.isatty()
+        # (no pager for a text diverted to the standard error: the pager
+        # would inherit the closed standard output)
+        use_pager = not diverted and sys.stdout is not None \
+            and sys.stdout.isatty()
         pager = os.getenv('PAGER', 'less')
 
         if use_pager:
